@@ -20,6 +20,7 @@
 (*   list       res n                                 terminal installs a result list (UpdateList)                   *)
 (*   query      q                                     the terminal's query line after a loop iteration               *)
 (*   end        q total sort                          driver observed quiescence: input ended, nothing pending       *)
+(*   mid        (same fields)                         the same observation in the middle of a session                *)
 EXTENDS Integers, Sequences, FiniteSets, TLC, Json, IOUtils
 
 TraceLog == ndJsonDeserialize(IOEnv.TRACE)
@@ -147,7 +148,15 @@ TEnd == /\ Is("end") /\ issued["retry"] = <<>> /\ issued["reset"] = <<>> /\ pick
         /\ ended' = TRUE
         /\ UNCHANGED <<sid, issued, no, picked, pubs, shown, lastReset, tail>>
 
-Next == TStart \/ TReset \/ TPick \/ TCacheHit \/ TCancelled \/ TPublish \/ TList \/ TQuery \/ TEnd
+(* quiescence in the middle of a session (input complete, nothing pending, nothing moving): the same convergence *)
+TMid == /\ Is("mid") /\ issued["retry"] = <<>> /\ issued["reset"] = <<>> /\ picked = None
+        /\ \/ (dev = {} => Converged(Ev)) /\ dev' = dev
+           \/ /\ dev = {} /\ ~Converged(Ev) /\ lastReset # None /\ Ev.wcfg # lastReset.cfg
+              /\ Converged([Ev EXCEPT !.wcfg = lastReset.cfg, !.wlo = Ev.lo])
+              /\ dev' = {"LostExclusion"}
+        /\ UNCHANGED <<sid, issued, no, picked, pubs, shown, lastReset, ended, tail>>
+
+Next == TMid \/ TStart \/ TReset \/ TPick \/ TCacheHit \/ TCancelled \/ TPublish \/ TList \/ TQuery \/ TEnd
 Spec == Init /\ [][Next]_vars
 
 Accepted == TLCGet("stats").diameter - 1 = Len(TraceLog)
